@@ -22,7 +22,7 @@ use super::*;
 }
 pub mod mul {
 use super::*;
-//@@ SIG integer/mul/multiply.rs
+//@@ SIG integer/mul_algos/multiply.rs
 // scratch sizing: opaque
 #[verifier::external_body]
 pub fn memory_requirement_exact(total_len: usize, smaller_len: usize) -> Layout { unimplemented!() }
